@@ -25,9 +25,11 @@ CHECK_DEADLOCK FALSE
 """
 
 
-def _gen_message(rng, hot):
+def _gen_message(rng, hot, big=False):
     n = rng.choice([0, 1, 1, 1, 2, 2, 3, 5, 7])
-    if rng.random() < 0.15:
+    if big:
+        n = rng.choice([100, 120, 200, 255])        # the count is one byte: up to 255 records in one message
+    if rng.random() < 0.15 and not big:
         return [(rng.choice(hot), bytes([rng.randrange(256)]))]      # the simulator's 1-byte form
     out = []
     for _ in range(n):
@@ -368,8 +370,8 @@ def _history_async(rng, n_msgs, rank, p_msg=0.62):
                 do_msg([(pos, bytes([(old + 1 + rng.randrange(255)) % 256, sim_struct.status_block[pos + 1]]))])
                 do_silent(pos, old)
                 do_get(off, ln)
-            elif r < p_msg:
-                do_msg(_gen_message(rng, hot))
+            elif r < p_msg or i == 12:
+                do_msg(_gen_message(rng, hot, big=(i == 12)))
             elif r < p_msg + 0.18:
                 pos = rng.choice(hot)
                 do_silent(pos, (sim_struct.status_block[pos] + 1 + rng.randrange(255)) % 256)
@@ -486,8 +488,8 @@ def _history_sync(rng, n_msgs, p_msg=0.62):
             for x in w.take():
                 ev.append({"k": "refresh", "off": x["pos"], "data": x["data"][:max(0, 1024 - x["pos"])]})
             nsent = len(s.sock.wire)
-            if r < p_msg:
-                ch = _gen_message(rng, hot)
+            if r < p_msg or i == 12:
+                ch = _gen_message(rng, hot, big=(i == 12))
                 for pos, data in ch:
                     sim_struct.replace_status_block_segment(pos, data)
                 s.inject(s.peer.push_changes(s.client_parms(), ch))
